@@ -158,8 +158,8 @@ Qed.
 
 (* ------------------------------------------------------------------ the confirmed gaps *)
 
-Definition fA : finfo := mkF (bs "A") true false None false false false.
-Definition fb : finfo := mkF (bs "b") false false None false false false.
+Definition fA : finfo := mkF (bs "A") true false None false false false false.
+Definition fb : finfo := mkF (bs "b") false false None false false false false.
 Definition t_mixed : ty := TStruct [(fA, TInt I64); (fb, TInt I64)].
 Definition v_mixed : value := VStruct [VInt 99; VInt 7].
 
@@ -168,8 +168,8 @@ Lemma mixed_fields_gap :
   roundtrip t_mixed v_mixed = Some (VStruct [VInt 99; VInt 0]).
 Proof. vm_compute. repeat split. Qed.
 
-Definition fAn : finfo := mkF (bs "A") true false (Some (bs "n")) false false false.
-Definition fBn : finfo := mkF (bs "B") true false (Some (bs "n")) false false false.
+Definition fAn : finfo := mkF (bs "A") true false (Some (bs "n")) false false false false.
+Definition fBn : finfo := mkF (bs "B") true false (Some (bs "n")) false false false false.
 Definition t_dup : ty := TStruct [(fAn, TInt I64); (fBn, TInt I64)].
 Definition v_dup : value := VStruct [VInt 1; VInt 2].
 
@@ -179,7 +179,7 @@ Lemma duplicate_name_gap :
   roundtrip t_dup v_dup = Some (VStruct [VInt 0; VInt 0]).
 Proof. vm_compute. repeat split. Qed.
 
-Definition fSo : finfo := mkF (bs "S") true false (Some (bs "s")) false true false.
+Definition fSo : finfo := mkF (bs "S") true false (Some (bs "s")) false true false false.
 Definition t_omit : ty := TStruct [(fSo, TSlice (TInt U8))].
 Definition v_omit : value := VStruct [VSlice (Some [])].
 
@@ -189,11 +189,11 @@ Lemma omitempty_gap :
 Proof. vm_compute. repeat split. Qed.
 
 (** non-vacuity: a plain accepted type with an embedded struct, a map, a byte slice *)
-Definition fMeta : finfo := mkF (bs "Meta") true true None false false false.
-Definition fID : finfo := mkF (bs "ID") true false None false false false.
-Definition fData : finfo := mkF (bs "Data") true false (Some (bs "data")) false false false.
-Definition fTab : finfo := mkF (bs "Tab") true false (Some (bs "tab")) false false false.
-Definition fCnt : finfo := mkF (bs "Count") true false (Some (bs "count,")) false true false.
+Definition fMeta : finfo := mkF (bs "Meta") true true None false false false false.
+Definition fID : finfo := mkF (bs "ID") true false None false false false false.
+Definition fData : finfo := mkF (bs "Data") true false (Some (bs "data")) false false false false.
+Definition fTab : finfo := mkF (bs "Tab") true false (Some (bs "tab")) false false false false.
+Definition fCnt : finfo := mkF (bs "Count") true false (Some (bs "count,")) false true false false.
 Definition t_good : ty :=
   TStruct [(fMeta, TStruct [(fID, TInt U64)]); (fData, TSlice (TInt U8));
            (fTab, TMap (MKInt U32) TString); (fCnt, TInt I64)].
@@ -207,8 +207,8 @@ Lemma good_example :
 Proof. vm_compute. repeat split. Qed.
 
 Definition t_hidden : ty :=
-  TStruct [(mkF (bs "vals") false false None false false false, TSlice (TInt I64));
-           (mkF (bs "idx") false false None false false false, TMap MKStr (TInt I64))].
+  TStruct [(mkF (bs "vals") false false None false false false false, TSlice (TInt I64));
+           (mkF (bs "idx") false false None false false false false, TMap MKStr (TInt I64))].
 
 Lemma hidden_example : hidden_only t_hidden = true /\ validate_state t_hidden = false.
 Proof. vm_compute. split; reflexivity. Qed.
